@@ -256,6 +256,21 @@ def exits_of(ev: Evaluator, fi: FuncInfo):
 
 
 # --------------------------------------------------------------------------- element-type (dtype) closure, shared by the numeric properties
+def foreign_heads(code, spec, allow=()) -> List[str]:
+    """uninterpreted constructs (library calls, methods, opaque calls, loop-carried state) that the code's value mentions and the documented value does
+    not: their presence means the construction is not one the rule can compare - the verdict is then *unknown* (exit 2), not a violation"""
+    def heads_of(v):
+        out = set()
+        for t in walk_vals(v):
+            if isinstance(t, Term) and (t.head.startswith(('lib:', 'method:', 'call:', 'binop:', 'new:')) or t.head in (
+                    'apply', 'loopvar', 'loopstate', 'stored', 'mutated', 'item', 'index', 'slice_of', 'listcomp', 'attr', 'getattr', 'partial', 'unsupported',
+                    'badcall', 'global', 'unresolved', 'take', 'col', 'cat', 'fill', 'T', 'mask', 'strop', 'fstring', 'iter')):
+                out.add(t.head)
+        return out
+    hs = heads_of(spec) | set(allow)
+    return sorted(h for h in heads_of(code) if h not in hs and h not in VALUE_CHANGING)
+
+
 def result_positions(ev, res) -> Dict[str, int]:
     """which local name ends up at which position of a returned tuple (by the values the names hold when the function returns, so an intermediate
     name for the tuple does not matter)"""
